@@ -53,6 +53,8 @@ TNext ==
         ELSE IF e.cur # cur THEN Drift("current_slot")
         ELSE IF e.no # Len(open) THEN Drift("windows_open_for_late_rows")
         ELSE Skip
+     ELSE IF e.e = "freerun" THEN        \* the forced part is over, the engine runs by itself: nothing to bind from here on (no drift)
+        dead' = TRUE /\ UNCHANGED <<vars, od, tr>>
      ELSE IF e.e = "trig" THEN
         IF ~TrigGuard THEN Drift("no_watermark_pending_in_the_model") ELSE Trig /\ UNCHANGED <<od, dead, tr>>
      ELSE IF e.e = "send" THEN
